@@ -33,6 +33,7 @@ var verifDir = func() string {
 	}
 	return "/verif"
 }()
+
 const repoDir = "/repo"
 
 type Violation struct {
@@ -105,8 +106,8 @@ type KnownFinding struct {
 	// this finding (the worlds tag classes with the circumstance).
 	ClassContains string `json:"class_contains,omitempty"`
 	Match         string `json:"match,omitempty"`
-	What  string `json:"what"`
-	Why   string `json:"why_not_fixed,omitempty"`
+	What          string `json:"what"`
+	Why           string `json:"why_not_fixed,omitempty"`
 }
 
 type KnownFile struct {
@@ -651,30 +652,30 @@ func check(id, tier string) int {
 		"violations":  nviol,
 		"assumptions": cfg.assumptions,
 		"coverage": map[string]any{
-			"evaluations":         m.evals,
-			"distinct_nontrivial": len(m.distinct),
-			"rule":                cfg.rule,
-			"samples":             m.samples,
-			"exhaustive":          exhaustive && cfg.exhaustiveClaim(tier),
-			"phases":              phaseNames(phases),
-			"steps":               m.steps,
-			"context_switches":    m.switches,
-			"simulated_time_s":    m.simMs / 1000,
-			"runs_per_hour":       float64(m.evals) / runS * 3600,
-			"run_phase_wall_s":    runS,
-			"build_wall_s":        buildS,
-			"worker_cpu_s":        m.workerWall,
-			"run_seeds":           fmt.Sprintf("run i uses splitmix64(VERIF_SEED=%d, property, i), i in [0,%d)", seed, m.evals),
-			"faults_fired":        m.faults,
-			"probes":              m.probes,
-			"probes_stuck_at_0":   stuck,
-			"distinct_interleavings": len(m.interleave),
-			"distinct_end_states": len(m.endStates),
-			"run_endings":         m.ends,
-			"inconclusive":        m.inconcl,
-			"known_findings_hit":  knownSeen,
+			"evaluations":              m.evals,
+			"distinct_nontrivial":      len(m.distinct),
+			"rule":                     cfg.rule,
+			"samples":                  m.samples,
+			"exhaustive":               exhaustive && cfg.exhaustiveClaim(tier),
+			"phases":                   phaseNames(phases),
+			"steps":                    m.steps,
+			"context_switches":         m.switches,
+			"simulated_time_s":         m.simMs / 1000,
+			"runs_per_hour":            float64(m.evals) / runS * 3600,
+			"run_phase_wall_s":         runS,
+			"build_wall_s":             buildS,
+			"worker_cpu_s":             m.workerWall,
+			"run_seeds":                fmt.Sprintf("run i uses splitmix64(VERIF_SEED=%d, property, i), i in [0,%d)", seed, m.evals),
+			"faults_fired":             m.faults,
+			"probes":                   m.probes,
+			"probes_stuck_at_0":        stuck,
+			"distinct_interleavings":   len(m.interleave),
+			"distinct_end_states":      len(m.endStates),
+			"run_endings":              m.ends,
+			"inconclusive":             m.inconcl,
+			"known_findings_hit":       knownSeen,
 			"out_of_scope_diagnostics": m.diag,
-			"components":          map[string]any{"real": cfg.real, "stub": cfg.stub},
+			"components":               map[string]any{"real": cfg.real, "stub": cfg.stub},
 		},
 	}
 	os.MkdirAll(filepath.Join(verifDir, "evidence"), 0o755)
@@ -815,11 +816,11 @@ func selftestDeterminism(ids []string) int {
 					sc.Buffer(make([]byte, 1<<20), 1<<28)
 					for sc.Scan() {
 						var r struct {
-							Done  bool     `json:"done"`
-							Index int      `json:"index"`
-							Trace string   `json:"trace"`
-							Log   []string `json:"log"`
-							End   string   `json:"end"`
+							Done  bool        `json:"done"`
+							Index int         `json:"index"`
+							Trace string      `json:"trace"`
+							Log   []string    `json:"log"`
+							End   string      `json:"end"`
 							Viol  []Violation `json:"violations"`
 						}
 						if json.Unmarshal(sc.Bytes(), &r) != nil || r.Done {
